@@ -215,7 +215,7 @@ func buildArtifact(name string) *artifact {
 	a.CfgDesc = descOf("application/vnd.oci.image.config.v1+json", a.Cfg)
 	a.LayerDesc = descOf("application/vnd.oci.image.layer.v1.tar", a.Layer)
 	if name == "annotated" {
-		a.Ann = map[string]string{"a": "1", annCreated: "2001-02-03T04:05:06Z"}
+		a.Ann = map[string]string{"a": "1", "e": "", annCreated: "2001-02-03T04:05:06Z"} // "e": present with the empty string as value
 	}
 	mb, err := json.Marshal(imageManifest{SchemaVersion: 2, MediaType: mtImage, Config: a.CfgDesc, Layers: []ocispec.Descriptor{a.LayerDesc}, Annotations: a.Ann})
 	if err != nil {
@@ -281,6 +281,10 @@ var mds = []mdT{
 	// ... and near misses that are NOT reserved and must be signed
 	{Label: "near-miss-one-short", Map: map[string]string{"io.cncf.notar": "1"}},
 	{Label: "near-miss-not-at-start", Map: map[string]string{"xio.cncf.notary.x": "1"}},
+	// empty strings: an annotation that is present with an empty value is still an annotation; a metadata value may be empty
+	{Label: "colliding-with-empty-valued-annotation", Map: map[string]string{"e": "x"}}, // "e" = "" on the annotated artifact
+	{Label: "colliding-empty-value", Map: map[string]string{"a": ""}},
+	{Label: "disjoint-empty-value", Map: map[string]string{"k2": ""}},
 }
 
 var refLabels = []string{"tag", "digest", "full-tag", "full-digest", "other-digest"}
@@ -301,6 +305,7 @@ var (
 	fullAlphabet = alphabetT{Name: "full", NMD: len(mds), NFmt: 2}
 	wideAlphabet = alphabetT{Name: "full-metadata-one-format", NMD: len(mds), NFmt: 1}
 	annAlphabet  = signerAnnotationAlphabet()
+	dupAlphabet  = identicalEnvelopeAlphabet()
 )
 
 func (a alphabetT) size() int {
@@ -369,6 +374,22 @@ func (o opT) String() string { return o.Ref + "+" + o.MD + "+" + o.Format + "@" 
 // opAt: operation number idx of the alphabet at position step of a history. The signer
 // is no dimension of its own: it rotates with (idx+step), so that every
 // (reference, metadata, format) meets every signer kind at some position.
+// identicalEnvelopeAlphabet: the replaying signer x {tag, digest, full digest reference} x {no metadata, disjoint
+// metadata} x 2 formats, plus two operations with a randomised signer. Calls whose resolved descriptor, metadata and
+// format agree produce byte-identical envelopes (collision by construction in the content-addressed repository).
+func identicalEnvelopeAlphabet() alphabetT {
+	var ops []opT
+	for _, ref := range []string{"tag", "digest", "full-digest"} {
+		for _, md := range []string{"none", "disjoint"} {
+			for _, f := range formats {
+				ops = append(ops, opT{Ref: ref, MD: md, Format: f, Signer: replayKind})
+			}
+		}
+	}
+	ops = append(ops, opT{Ref: "tag", MD: "none", Format: "jws", Signer: "generic-wrapped-chain3"}, opT{Ref: "tag", MD: "reserved", Format: "cose", Signer: replayKind})
+	return alphabetT{Name: "byte-identical-envelopes", Ops: ops}
+}
+
 func (a alphabetT) opAt(idx, step int) opT {
 	if a.Ops != nil {
 		return a.Ops[idx]
@@ -487,6 +508,41 @@ func (b *backSigner) Sign(c context.Context, desc ocispec.Descriptor, opts notat
 	return sig, &content.SignerInfo, nil
 }
 
+// replaySigner is a deterministic signer: the first request for a (format, payload) is signed like backSigner does
+// (fixed instant), every later request for the same (format, payload) gets the byte-identical envelope again - what
+// a signer without randomness and with a frozen clock (or a remote signer with a cache) does. A second signing call
+// with it collides with the first one in a content-addressed repository.
+type replaySigner struct {
+	back  *backSigner
+	cache map[string]replayed
+}
+
+type replayed struct {
+	sig  []byte
+	info *signature.SignerInfo
+}
+
+const replayKind = "instrumented-replaying-chain2"
+
+func (r *replaySigner) Sign(c context.Context, desc ocispec.Descriptor, opts notation.SignerSignOptions) ([]byte, *signature.SignerInfo, error) {
+	key := opts.SignatureMediaType + "|" + string(desc.Digest) + "|" + fmt.Sprint(desc.Size) + "|" + desc.MediaType + "|" + mapString(desc.Annotations)
+	if e, ok := r.cache[key]; ok {
+		r.back.rec.calls++
+		r.back.rec.desc = deepCopyDesc(desc)
+		r.back.rec.opts = opts
+		return append([]byte(nil), e.sig...), e.info, nil
+	}
+	calls := r.back.rec.calls
+	r.back.rec.calls = 0 // backSigner derives its instant from the call number: always the first instant here
+	sig, info, err := r.back.Sign(c, desc, opts)
+	r.back.rec.calls = calls + 1
+	if err != nil {
+		return nil, nil, err
+	}
+	r.cache[key] = replayed{append([]byte(nil), sig...), info}
+	return sig, info, nil
+}
+
 // annSigner adds PluginAnnotations() to a signer: every call returns THE SAME map object.
 type annSigner struct {
 	inner notation.Signer
@@ -526,6 +582,9 @@ func (s *signers) make(kind string) (notation.Signer, *recorded, *pki.Chain, err
 		return &backSigner{chain: s.chain2, when: s.backdate, rec: rec}, rec, s.chain2, nil
 	case "generic-raw-chain2":
 		return s.gen2, nil, s.chain2, nil
+	case replayKind:
+		rec := &recorded{}
+		return &replaySigner{back: &backSigner{chain: s.chain2, when: s.backdate.Add(-30 * time.Minute), rec: rec}, cache: map[string]replayed{}}, rec, s.chain2, nil
 	}
 	return nil, nil, nil, fmt.Errorf("unknown signer kind %q", kind)
 }
@@ -667,11 +726,13 @@ type world struct {
 	snap    map[string]resolved
 	index0  []string // disk: the artifact's own entries of index.json before the first call
 
-	sigs   []sigRec              // signature manifests attached to the artifact after the calls so far
-	labels []string              // canonical labels of the successful calls so far
-	okOps  []opT                 // the successful calls so far
-	kept   map[string]keptSigner // annotating signers live as long as the repository (one object per kind)
-	notes  []string              // recorded, not judged observations of the last judged call
+	sigs   []sigRec                 // signature manifests attached to the artifact after the calls so far
+	labels []string                 // canonical labels of the successful calls so far
+	okOps  []opT                    // the successful calls so far
+	kept   map[string]keptSigner    // annotating signers live as long as the repository (one object per kind)
+	notes  []string                 // recorded, not judged observations of the last judged call
+	envs   map[digest.Digest][]byte // envelope of every signature manifest as fetched when it was first listed
+	stored map[string]bool          // (format, signed descriptor) of the successful calls of the replaying signer
 	evals  int
 }
 
@@ -683,9 +744,9 @@ type keptSigner struct {
 	chain *pki.Chain
 }
 
-// signerFor: plain kinds get a fresh object per call (they are stateless); an annotating kind is one object per world.
+// signerFor: plain kinds get a fresh object per call (they are stateless); an annotating or replaying kind is one object per world.
 func (w *world) signerFor(kind string) (notation.Signer, *recorded, *pki.Chain, error) {
-	if !strings.Contains(kind, paSep) {
+	if !strings.Contains(kind, paSep) && kind != replayKind {
 		return w.sg.make(kind)
 	}
 	if k, ok := w.kept[kind]; ok {
@@ -1079,6 +1140,10 @@ func (w *world) apply(step int, op opT, judge bool) (vs []viol, class string, su
 		}
 	}
 	label := op.Format + mapString(exp.Annotations)
+	// a call that can only produce the byte-identical signature of an earlier successful call: its outcome is not
+	// judged (the one signature it would push is already there; a content-addressed store may answer "exists")
+	dupKey := op.Format + "|" + string(exp.Digest) + "|" + fmt.Sprint(exp.Size) + "|" + exp.MediaType + "|" + mapString(exp.Annotations)
+	duplicate := op.Signer == replayKind && wantOK && w.stored[dupKey]
 
 	// advance the model state from what the repository lists now
 	defer func() {
@@ -1096,6 +1161,26 @@ func (w *world) apply(step int, op opT, judge bool) (vs []viol, class string, su
 		if succeeded {
 			w.labels = append(w.labels, label)
 			w.okOps = append(w.okOps, op)
+			if op.Signer == replayKind {
+				if w.stored == nil {
+					w.stored = map[string]bool{}
+				}
+				w.stored[dupKey] = true
+			}
+		}
+		// remember the envelope of every newly listed signature (compared after later calls)
+		if w.envs == nil {
+			w.envs = map[digest.Digest][]byte{}
+		}
+		for _, d := range fresh {
+			if _, ok := w.envs[d.Digest]; !ok {
+				if w.mock == nil {
+					w.evals++
+				}
+				if b, _, err := w.repo.FetchSignatureBlob(ctx, d); err == nil {
+					w.envs[d.Digest] = b
+				}
+			}
 		}
 	}()
 
@@ -1103,7 +1188,27 @@ func (w *world) apply(step int, op opT, judge bool) (vs []viol, class string, su
 		return nil, "", succeeded, nil
 	}
 
+	// whatever the call did: every signature attached before is still listed (judged below) and still delivers the
+	// envelope it delivered before (the repository's view of the artifact apart from the one signature pushed)
+	for _, sg := range w.sigs {
+		was, ok := w.envs[sg.Manifest.Digest]
+		if !ok {
+			continue
+		}
+		if w.mock == nil {
+			w.evals++
+		}
+		if b, _, err := w.repo.FetchSignatureBlob(ctx, sg.Manifest); err != nil || !bytes.Equal(b, was) {
+			add("referrers/earlier-signature-damaged", "signature manifest %s attached by an earlier call: envelope had %d bytes, now %d bytes, error %v (this call returned: %v)", sg.Manifest.Digest, len(was), len(b), err, serr)
+			break
+		}
+	}
+
 	switch {
+	case duplicate && serr != nil:
+		class = "byte-identical signature again: call failed (outcome not judged)"
+	case duplicate && len(fresh) == 0 && stillThere == len(old):
+		class = "byte-identical signature again: call succeeded, no further referrer (outcome not judged)"
 	case wantOK && serr != nil:
 		identical := false
 		// was the same call (reference, metadata, format) made and successful earlier in this history?
@@ -1151,7 +1256,7 @@ func (w *world) apply(step int, op opT, judge bool) (vs []viol, class string, su
 		if class == "" {
 			class = "refused: " + reason
 		}
-	} else if wantOK {
+	} else if wantOK && class == "" {
 		n := len(vs)
 		w.judgeSuccess(add, op, mt, md, snap, exp, chain, rec, gotArt, gotSig, fresh, stillThere, len(old), pushesBefore, callsBefore)
 		if len(vs) == n {
@@ -1728,12 +1833,15 @@ func main() {
 		depth map[string]int
 		from  int
 	}
+	// (within one depth the small families run first: a run cut by the deadline has completed them)
 	plans := []plan{
-		{fullAlphabet, map[string]int{"mock": 2, "disk": 2, "memory": 2}, 1},
+		{dupAlphabet, map[string]int{"mock": 3, "disk": 3, "memory": 3}, 1},
 		{annAlphabet, map[string]int{"mock": 2, "disk": 2, "memory": 2}, 1},
+		{fullAlphabet, map[string]int{"mock": 2, "disk": 2, "memory": 2}, 1},
 	}
 	if r.Thorough() {
 		plans = []plan{
+			{dupAlphabet, map[string]int{"mock": 3, "disk": 3, "memory": 3}, 1},
 			{fullAlphabet, map[string]int{"mock": 2, "disk": 2, "memory": 2}, 1},
 			{coreAlphabet, map[string]int{"mock": 3, "disk": 3, "memory": 3}, 3},
 			{wideAlphabet, map[string]int{"mock": 3}, 3},
@@ -1764,7 +1872,7 @@ func main() {
 	statesMu.Lock()
 	r.State(len(states))
 	statesMu.Unlock()
-	r.Extra["operations"] = map[string]int{"full": fullAlphabet.size(), "core": coreAlphabet.size(), wideAlphabet.Name: wideAlphabet.size(), annAlphabet.Name: annAlphabet.size()}
+	r.Extra["operations"] = map[string]int{"full": fullAlphabet.size(), "core": coreAlphabet.size(), wideAlphabet.Name: wideAlphabet.size(), annAlphabet.Name: annAlphabet.size(), dupAlphabet.Name: dupAlphabet.size()}
 	r.Extra["references"] = refLabels
 	var mdNames []string
 	for _, m := range mds {
